@@ -137,4 +137,80 @@ UpdatePre(ups, root, i) ==
                  ELSE LET j == CHOOSE x \in bad : \A y \in bad : x <= y IN
                       IF j > 1 /\ ~BitLess(u.ops[j - 1][1], u.ops[j][1]) THEN "OpsOutOfOrder"
                       ELSE "OpOutOfScope"
+
+(***************************************************************************)
+(* Multi-proofs (core/src/proof/multi_proof.rs).                           *)
+(* A path proof for aggregation carries its terminal, its siblings and the *)
+(* terminal's own path `tpath` (PathProofTerminal::path: the full key of a *)
+(* leaf, the position bits of a terminator).                               *)
+(***************************************************************************)
+TPath(t) == IF t.kind = "L" THEN t.key ELSE t.pos
+
+Select(s, Test(_)) ==
+    LET F[i \in 0..Len(s)] == IF i = 0 THEN <<>> ELSE IF Test(s[i]) THEN Append(F[i - 1], s[i]) ELSE F[i - 1]
+    IN F[Len(s)]
+
+\* MultiProof::from_path_proofs (:172): recursive bisection of the ordered path proofs.  d = bits consumed.
+RECURSIVE MultiFromRange(_, _)
+MultiFromRange(pfs, d) ==
+    IF Len(pfs) = 1
+    THEN [paths |-> <<[terminal |-> pfs[1].terminal, depth |-> Len(pfs[1].sibs)]>>,
+          sibs |-> SubSeq(pfs[1].sibs, d + 1, Len(pfs[1].sibs))]
+    ELSE IF TPath(pfs[1].terminal)[d + 1] # TPath(pfs[Len(pfs)].terminal)[d + 1]
+    THEN LET L == MultiFromRange(Select(pfs, LAMBDA x : TPath(x.terminal)[d + 1] = 0), d + 1)
+             R == MultiFromRange(Select(pfs, LAMBDA x : TPath(x.terminal)[d + 1] = 1), d + 1)
+         IN [paths |-> L.paths \o R.paths, sibs |-> L.sibs \o R.sibs]
+    ELSE LET rest == MultiFromRange(pfs, d + 1)
+         IN [paths |-> rest.paths, sibs |-> <<pfs[1].sibs[d + 1]>> \o rest.sibs]
+
+MultiFrom(pfs) == IF Len(pfs) = 0 THEN [paths |-> <<>>, sibs |-> <<>>] ELSE MultiFromRange(pfs, 0)
+
+SharedBits(a, b) ==
+    LET n == IF Len(a) < Len(b) THEN Len(a) ELSE Len(b)
+        D == {i \in 1..n : a[i] # b[i]}
+    IN IF D = {} THEN n ELSE (CHOOSE i \in D : \A j \in D : i <= j) - 1
+
+\* verify_range (:460).  Result: [t |-> "Ok", node, used] or [t |-> "Malformed"] where the Rust code indexes
+\* or subtracts without a guard (C18: the real function must return an error there, not panic).
+RECURSIVE VerifyRange(_, _, _)
+VerifyRange(start, paths, sibs) ==
+    IF Len(paths) = 0 THEN [t |-> "Ok", node |-> TNode, used |-> 0]
+    ELSE IF Len(paths) = 1 THEN
+        LET p == paths[1] tp == TPath(p.terminal) IN
+        IF p.depth < start \/ Len(tp) < p.depth \/ Len(sibs) < p.depth - start THEN [t |-> "Malformed"]
+        ELSE LET u == p.depth - start IN
+             [t |-> "Ok", used |-> u,
+              node |-> HashUp(TermNode(p.terminal), SubSeq(tp, start + 1, start + u), SubSeq(sibs, 1, u))]
+    ELSE
+        LET a == TPath(paths[1].terminal) b == TPath(paths[Len(paths)].terminal) IN
+        IF Len(a) < start \/ Len(b) < start THEN [t |-> "Malformed"]
+        ELSE
+        LET common == SharedBits(SubSeq(a, start + 1, Len(a)), SubSeq(b, start + 1, Len(b)))
+            clen == start + common
+            ustart == clen + 1
+        IN IF \E i \in 1..Len(paths) : Len(TPath(paths[i].terminal)) < ustart THEN [t |-> "Malformed"]
+           ELSE IF Len(sibs) < common THEN [t |-> "Malformed"]
+           ELSE
+           LET ones == {i \in 1..Len(paths) : TPath(paths[i].terminal)[ustart] = 1}
+               \* the binary search returns the first index holding a 1 (the list is sorted)
+               idx == IF ones = {} THEN Len(paths) + 1 ELSE CHOOSE i \in ones : \A j \in ones : i <= j
+               L == VerifyRange(ustart, SubSeq(paths, 1, idx - 1), SubSeq(sibs, common + 1, Len(sibs)))
+           IN IF idx = 1 \/ idx = Len(paths) + 1 THEN [t |-> "Malformed"]
+              ELSE IF L.t # "Ok" THEN L
+              ELSE IF Len(sibs) < common + L.used THEN [t |-> "Malformed"]
+              ELSE LET Rr == VerifyRange(ustart, SubSeq(paths, idx, Len(paths)),
+                                         SubSeq(sibs, common + L.used + 1, Len(sibs)))
+                   IN IF Rr.t # "Ok" THEN Rr
+                      ELSE [t |-> "Ok", used |-> common + L.used + Rr.used,
+                            node |-> HashUp(Int(L.node, Rr.node), SubSeq(a, start + 1, clen), SubSeq(sibs, 1, common))]
+
+\* multi_proof::verify (:419)
+VerifyMulti(mp, root) ==
+    IF \E i \in 2..Len(mp.paths) : ~BitLess(TPath(mp.paths[i - 1].terminal), TPath(mp.paths[i].terminal))
+    THEN "PathsOutOfOrder"
+    ELSE LET r == VerifyRange(0, mp.paths, mp.sibs) IN
+         IF r.t # "Ok" THEN r.t
+         ELSE IF r.node # root THEN "RootMismatch"
+         ELSE IF r.used # Len(mp.sibs) THEN "TooManySiblings"
+         ELSE "Ok"
 =============================================================================
